@@ -23,10 +23,13 @@ def load():
 
 def match(findings, prop, v):
     for f in findings:
-        if "fixed" in f or f.get("property") != prop:
+        if "fixed" in f or (f.get("property") != prop and prop not in f.get("properties", [])):
             continue
         k = f.get("kind")
         if k == "obligation" and v.get("obligation") == f["obligation"]:
+            return f
+        if k == "native-clause" and v.get("source") == "native-contract" and v.get("contract") == f["contract"] \
+                and v.get("failed") and all(cl in f["clauses"] for cl in v["failed"]):
             return f
         if k == "input":
             fi = v.get("failing_input") or {}
